@@ -343,23 +343,31 @@ def other_cases(ctx, rng, scale, add, dist, failures):
             dist['latent_moved_values'] = dist.get('latent_moved_values', 0) + 1
         exact = dimq == len(levels) and rng.random() < 0.5
         z = (vqrec.grid(rng, (2, dimq, 3), den=16, lim=12) if exact else torch.randn(2, dimq, 3) * 0.4)
+        captured = []
+        hk = lq.project_out.register_forward_pre_hook(lambda mod_, args: captured.append(args[0].detach().clone()))
+        try:
+            with torch.no_grad():
+                out, idx, _ = lq(z)
+                zp = lq.project_in(z.movedim(1, -1))           # b n (c d)
+        finally:
+            hk.remove()
         with torch.no_grad():
-            out, idx, _ = lq(z)
-            zp = lq.project_in(z.movedim(1, -1))           # b n (c d)
             zq = zp.reshape(-1, len(levels))
-            lv = lq.indices_to_codes(idx, project_out=False)  # not used for the check
-            code = zq.clone()
             values = [v.detach().double().tolist() for v in lq.values_per_latent]
-            # level index per latent from the returned flat index (mixed radix, C04)
-            flat = idx.reshape(-1)
-            basis = lq._basis.tolist()
-            lev = lq._levels.tolist()
+            # the ASSIGNED entry per latent dimension is read off the quantized vector itself (the input of the output projection): it must be one
+            # of that latent's values and the nearest one.  (How the flat index encodes it is the codec's subject: C02 / C04, finding D18.)
+            codes = (captured[0] if captured else out.movedim(1, -1)).reshape(-1, len(levels)).double()
             parts = []
             for t in range(zq.shape[0]):
                 for k in range(len(levels)):
-                    li = (int(flat[t]) // basis[k]) % lev[k]
-                    parts.append(f'(if lq_okb {qlit(Fraction(0) if exact else Fraction(1, 10 ** 6))} {qvec(values[k])} {qlit(float(zq[t, k]))} {li}%nat then 0 else 1)%nat')
-            add('(' + ' + '.join(parts) + ')%nat', dict(kind='latent', levels=levels, exact=exact), True)
+                    cval = float(codes[t, k])
+                    match = [j for j, vv in enumerate(values[k]) if abs(vv - cval) <= 1e-6]
+                    if not match:
+                        failures.append({'key': 'latent:quantized-value-not-an-entry', 'what': f'LatentQuantize(levels={levels}): the quantized value {cval!r} of latent {k} is not one of its values {values[k]}', 'case': dict(levels=levels)})
+                        continue
+                    parts.append(f'(if lq_okb {qlit(Fraction(0) if exact else Fraction(1, 10 ** 6))} {qvec(values[k])} {qlit(float(zq[t, k]))} {match[0]}%nat then 0 else 1)%nat')
+            if parts:
+                add('(' + ' + '.join(parts) + ')%nat', dict(kind='latent', levels=levels, exact=exact), True)
         dist['latent'] += 1
 
 
